@@ -42,6 +42,7 @@ pub use runner::{SessionEngine, SessionHandle};
 pub mod verif_export {
     pub use crate::provider_openresponses::OpenResponsesConfig;
     pub use crate::server::VerifApp;
+    pub use crate::session::verif_sse_pipe_run as sse_pipe_run;
 }
 
 #[cfg(not(test))]
